@@ -53,8 +53,8 @@ THEOREMS = [
     "Mpc.C13_instantiate_identity_on_sized",
     "Mpc.C13_instantiate_touches_only_unsized",
     "Mpc.C13_instantiate_sized_members_keep_type",
-    "Mpc.C13_instantiate_member_width_partial",
-    "Mpc.C13_instantiate_nested_sizes_witness",
+    "Mpc.C13_instantiate_member_width",
+    "Mpc.C13_old_instantiate_nested_sizes_witness",
     "Mpc.C13_mainarg_short_literal_keeps_layout",
 ]
 
@@ -240,5 +240,6 @@ def run(ctx):
         "tree, Ty.inst in Model/IoInst.lean), the result has the struct layout, sized members keep their Info in the "
         "flattened argument; tied by the insts / mainarg ops (real InstantiateWithSizes, real compile of a synthesized "
         "program) and judged on the real results; ops on which model and implementation disagree are re-run through "
-        "the oracle of their kind (c13 judge) so that the report carries the concrete input. Still violated: a member "
-        "that follows a nested struct is sized from an earlier input (C13_instantiate_nested_sizes_witness).")
+        "the oracle of their kind (c13 judge) so that the report carries the concrete input. Every unsized leaf, at any "
+        "nesting depth, is sized from the entry of the input it receives (C13_instantiate_member_width; the defect of "
+        "the old struct loop, repaired by 4a72a07, is C13_old_instantiate_nested_sizes_witness).")
